@@ -188,6 +188,11 @@ def corpus(tier, rng):
             taxa = (i % 2 == 0)
             docs.append(dict(schema="nexus", name="nexus:%s+%s/tr%s,%s/taxa%d" % ("".join(map(str, a)), "".join(map(str, b)), ta, tb, taxa),
                              text=nexus_doc([(a, ta), (b, tb)], taxa, chars=(taxa and i % 3 == 0)), sizes=[len(a), len(b)]))
+    # the same documents with CR+LF line ends (a subset): a string or a path is read with universal newlines, a stream
+    # handed over by the caller delivers the carriage returns to the tokenizer
+    for i, d in enumerate(list(docs)):
+        if i % (3 if full else 7) == 0 and "\n" in d["text"]:
+            docs.append(dict(d, name=d["name"] + ":crlf", text=d["text"].replace("\n", "\r\n")))
     for i, d in enumerate(docs):
         if full:
             d["opts_list"] = NEWICK_OPTS
@@ -430,7 +435,10 @@ def evaluate_matrix(case):
         ref = run(lambda: M.observe_matrix(DataSet.get(data=text, schema=schema, **dskw).char_matrices[off]))
         alone = run(lambda: M.observe_matrix(cls.get(data=text, schema=schema, matrix_offset=off, **kw)))
         _cmp("routes.matrix", ref, alone, out, "%s.get(matrix_offset=%d) vs DataSet.get" % (cls.__name__, off))
-        _cmp("routes.matrix", ref, run(lambda: M.observe_matrix(cls.get(file=io.StringIO(text), schema=schema, matrix_offset=off, **kw))), out, "file=")
+        # (a stream is handed over as it is; only for bare-CR documents it is a universal-newlines stream, as open() gives:
+        # which characters end a line of a stream is the stream's business, and the FASTA/PHYLIP readers read by line)
+        mkstream = (lambda: io.StringIO(text, newline=None)) if case["name"].endswith(":cr") else (lambda: io.StringIO(text))
+        _cmp("routes.matrix", ref, run(lambda: M.observe_matrix(cls.get(file=mkstream(), schema=schema, matrix_offset=off, **kw))), out, "file=")
 
         def by_path():
             fd, p = tempfile.mkstemp(prefix="c13m_", suffix="." + schema)
@@ -476,6 +484,11 @@ def matrix_cases():
     for schema, name, dt, text, kw in MATRIX_DOCS:
         cases.append(dict(kind="matrix", schema=schema, name="%s:%s" % (schema, name), data_type=dt, text=text, opts=kw,
                           n_matrices=(2 if name == "two-blocks" else 1)))
+        # the same document with CR+LF and with CR line ends: a string or an untranslated stream hands the carriage returns
+        # to the tokenizer, a path opened in text mode does not
+        for eol_name, eol in (("crlf", "\r\n"), ("cr", "\r")):
+            cases.append(dict(kind="matrix", schema=schema, name="%s:%s:%s" % (schema, name, eol_name), data_type=dt, text=text.replace("\n", eol), opts=kw,
+                              n_matrices=(2 if name == "two-blocks" else 1)))
         if schema == "nexus":
             try:
                 ds = DataSet.get(data=text, schema="nexus")
